@@ -459,6 +459,36 @@ func vgenInputs(r *vrand, nExact, nEdit, nScen, nMal int) []vinput {
 		}
 		outInputs = append(outInputs, vinput{id: fmt.Sprintf("f%d", i), data: []byte(sb.String())})
 	}
+	// a stray fragment of the document right before (or after) a copy that has a gap where the fragment
+	// comes from: the search set fuses the fragment into the proposed range and the diff discards it as
+	// a leading (trailing) deletion — the trimmed span then differs from the proposed one at ONE end
+	ng := 0
+	for i, d := range vpick(r.fork(6), 4*(nEdit/3+2)) {
+		rr := r.fork(uint64(330 + i))
+		ws := strings.Fields(string(d.data))
+		if len(ws) < 120 || len(ws) > 3000 || ng >= nEdit/3+2 {
+			continue
+		}
+		ng++
+		fl := 5 + rr.intn(4)
+		var w []string
+		if i%2 == 0 {
+			w = append(append(append(w, ws[10:10+fl]...), ws[:16]...), ws[32:]...)
+		} else {
+			n := len(ws)
+			w = append(append(append(w, ws[:n-32]...), ws[n-16:]...), ws[n-16:n-16+fl]...)
+		}
+		var sb strings.Builder
+		for j, x := range w {
+			sb.WriteString(x)
+			if j%10 == 9 {
+				sb.WriteByte('\n')
+			} else {
+				sb.WriteByte(' ')
+			}
+		}
+		outInputs = append(outInputs, vinput{id: fmt.Sprintf("g%d", i), data: []byte(sb.String() + "\n")})
+	}
 	for i := 0; i < nScen && i < len(vscen); i++ {
 		out = append(out, vinput{id: fmt.Sprintf("s%d", i), data: vscen[(i+int(vseed()))%len(vscen)].data})
 	}
@@ -511,6 +541,8 @@ func vtinyCorpora(o *vout, r *vrand) int {
 		// words that decode to the dictionary's placeholder for unknown ids: q-grams of out-of-vocabulary
 		// input words hash like this document's, though no token id agrees (diff without an Equal part)
 		{"License", "Unk", "u", strings.Repeat("&#85;&#78;&#75;&#78;&#79;&#87;&#78; ", 9)},
+		{"License", "Tiny24", "t.txt", "alpha bravo charlie delta echo foxtrot golf hotel india juliet kilo lima mike november oscar papa quebec romeo sierra tango uniform victor whiskey xray"},
+		{"License", "Tiny13", "t.txt", "one two three four five six seven eight nine ten eleven twelve thirteen"},
 	}
 	ths := []float64{0.8, 0.9, 0.5, 0.67, 0}
 	if vthorough() {
@@ -534,6 +566,18 @@ func vtinyCorpora(o *vout, r *vrand) int {
 			ws := strings.Fields(d.text)
 			if len(ws) > 2 {
 				inputs = append(inputs, strings.Join(ws[:len(ws)-1], " "), strings.Join(ws[1:], " "), "zyxqv "+strings.Join(ws[:len(ws)-1], " "))
+			}
+			// 1..4 words replaced (the replaced words follow on a second line, so the frequency filter
+			// still sees them): confidences around the threshold, exactly floor(t*n)/n among them
+			for k := 1; k <= 4 && k < len(ws); k++ {
+				sub := append([]string(nil), ws...)
+				var moved []string
+				for j := 0; j < k; j++ {
+					p := (2*j + 1) % len(sub)
+					moved = append(moved, sub[p])
+					sub[p] = voovWords[j]
+				}
+				inputs = append(inputs, strings.Join(sub, " ")+"\n"+strings.Join(moved, " "))
 			}
 		}
 		inputs = append(inputs, docs[0].text+" "+docs[6].text, docs[1].text+"\n"+docs[0].text, "", "zyxqv", mk(0, 13),
